@@ -35,6 +35,17 @@ def str_roundtrip(tier, seed, only=None):
                 ok = back == m and type(back.time) is type(m.time) and mido.parse_string(mido.format_as_string(m)) == m
             except Exception as ex:
                 ok, back = False, ex
+            if ok and tm == TIMES[0]:
+                # history: the result is a fresh message every time - editing one result must not show up in a later parse of
+                # the same text (a memoised parser would hand out the edited object again)
+                try:
+                    back.time = 12345
+                    for again in (mido.Message.from_str(str(m)), mido.parse_string(str(m)), list(mido.parse_string_stream([str(m), str(m)]))[1][0]):
+                        if again != m or again is back:
+                            ok, back = False, 'a second parse of the same text gave %r after the first result was edited' % (again,)
+                            break
+                except Exception as ex:
+                    ok, back = False, ex
             if not ok:
                 fails.append(dict(clause='from_str(str(m)) == m', inputs=dict(type=t, attrs={k: list(v) if isinstance(v, tuple) else v for k, v in attrs.items()}, time=repr(tm)), detail=repr(back)[:200]))
     return dict(evaluations=n, distinct_nontrivial=len(seen), failures=fails[:20])
@@ -118,6 +129,47 @@ def eval_repr(tier, seed, only=None):
             except Exception as ex2:      # noqa  (the value that came back cannot even be shown)
                 shown = 'repr of the result raised %r' % ex2
             fails.append(dict(clause='eval(repr(x)) == x', inputs=dict(repr=r[:300], kind=type(o).__name__), detail=shown))
+    return dict(evaluations=n, distinct_nontrivial=len(seen), failures=fails[:20])
+
+
+@bounded('meta-codec-through-bytes-and-files', ('C09',), 'every meta type x boundary grid of its attributes (texts incl. the tricky ones; smpte_offset hours < 32 and tuple data only: the '
+         'rest is known findings K1/K4): from_bytes(bytes()) and a save/load round trip of a one-track file, loaded with clip=False and with clip=True')
+def meta_codec_files(tier, seed, only=None):
+    import io
+    import mido
+    fails, n, seen = [], 0, set()
+    for m in _meta_messages():
+        if m.type == 'smpte_offset' and m.hours >= 32:
+            continue
+        if isinstance(m, mido.UnknownMetaMessage) or m.type == 'end_of_track':
+            continue                # (an end_of_track inside a track is folded away by the writer: C07/C08)
+        txt = getattr(m, 'text', getattr(m, 'name', ''))
+        try:
+            txt.encode('latin1')
+        except UnicodeError:
+            continue                # not storable in the default charset (that refusal is C17's business)
+        m = m.copy(time=int(m.time))
+        n += 1
+        seen.add(repr(m))
+        problems = []
+        try:
+            back = mido.MetaMessage.from_bytes(m.bytes())
+            if back != m.copy(time=0) and back != m:
+                problems.append('from_bytes(bytes()) gave %r' % (back,))
+        except Exception as ex:     # noqa
+            problems.append('from_bytes(bytes()) raised %r' % ex)
+        try:
+            mf = mido.MidiFile(type=0, ticks_per_beat=96, tracks=[mido.MidiTrack([m, mido.Message('note_on', note=1, time=2)])])
+            buf = io.BytesIO()
+            mf.save(file=buf)
+            for clip in (False, True):
+                got = mido.MidiFile(file=io.BytesIO(buf.getvalue()), clip=clip).tracks[0][0]
+                if got != m:
+                    problems.append('save/load with clip=%s gave %r' % (clip, got))
+        except Exception as ex:     # noqa
+            problems.append('save/load raised %r' % ex)
+        if problems:
+            fails.append(dict(clause='a valid meta message survives bytes() / from_bytes and save / load (any clip setting)', inputs=dict(message=repr(m)), detail='; '.join(problems)[:300]))
     return dict(evaluations=n, distinct_nontrivial=len(seen), failures=fails[:20])
 
 
